@@ -125,6 +125,7 @@ Definition cast_scalar (ty:vtype) (v:value) : outcome value :=
   | VSym _ => Ok v
   | _ =>
     match ty, v with
+    | VTArray, _ => Refuse ECast      (* no scalar value is of the bare type "array" *)
     | VTInt, VInt _ => Ok v
     | VTInt, VCpx _ => Refuse ECast
     | VTFloat, VInt z => Ok (VFlt (int_term z))
